@@ -36,11 +36,11 @@ Proof.
   unfold admit_of, admitted. destruct (p_active s) as [a|] eqn:A; [|discriminate].
   destruct (no_secrets_configured (a_cfg a)) eqn:NS; [discriminate|].
   destruct (verify_pre (a_cfg a) r) as [[[[sg tt] nn] ts]|] eqn:P; [|discriminate].
-  destruct (fst (admit nn (ts * sec) (h_tol (a_cfg a)) now (a_cache a))) eqn:AD; [|discriminate].
+  destruct (fst (cache_admit nn (ts * sec) (h_tol (a_cfg a)) now (a_cache a))) eqn:AD; [|discriminate].
   intros H. inversion H; subst n t1. clear H.
   simpl. rewrite A.
   destruct (verify (a_cfg a) (a_cache a) now r) as [ok c'] eqn:V.
-  assert (C : c' = snd (admit nn (ts * sec) (h_tol (a_cfg a)) now (a_cache a))).
+  assert (C : c' = snd (cache_admit nn (ts * sec) (h_tol (a_cfg a)) now (a_cache a))).
   { change c' with (snd (ok, c')). rewrite <- V. rewrite verify_cache, NS, P. reflexivity. }
   pose proof (admit_true _ _ _ _ _ AD) as (_ & _ & L & _).
   exists {| a_cfg := a_cfg a; a_cache := c' |}, (ts * sec + h_tol (a_cfg a)).
@@ -85,7 +85,7 @@ Proof.
   unfold prev_of in Hp. rewrite A in Hp. inversion Hp; subst a'. clear Hp.
   destruct (no_secrets_configured (a_cfg a)); [discriminate|].
   destruct (verify_pre (a_cfg a) r) as [[[[sg tt] nn] ts]|]; [|discriminate].
-  destruct (fst (admit nn (ts * sec) (h_tol (a_cfg a)) now (a_cache a))) eqn:AD; [|discriminate].
+  destruct (fst (cache_admit nn (ts * sec) (h_tol (a_cfg a)) now (a_cache a))) eqn:AD; [|discriminate].
   intros H. inversion H; subst nn t2. clear H.
   exists a. split; [reflexivity|].
   pose proof (admit_true _ _ _ _ _ AD) as (_ & _ & _ & Hlive). specialize (Hlive x Hl). lia.
@@ -182,7 +182,7 @@ Proof.
   unfold admit_of, admitted. destruct (p_active s) as [a|]; [|discriminate].
   destruct (no_secrets_configured (a_cfg a)); [discriminate|].
   destruct (verify_pre (a_cfg a) r) as [[[[sg tt] nn] ts]|]; [|discriminate].
-  destruct (fst (admit nn (ts * sec) (h_tol (a_cfg a)) now (a_cache a))) eqn:AD; [|discriminate].
+  destruct (fst (cache_admit nn (ts * sec) (h_tol (a_cfg a)) now (a_cache a))) eqn:AD; [|discriminate].
   intros H. inversion H; subst. exists a. split; [reflexivity|].
   pose proof (admit_true _ _ _ _ _ AD) as (_ & Hw & _). exact Hw.
 Qed.
@@ -304,8 +304,8 @@ Proof.
     rewrite C in A1. rewrite C2 in A2.
     destruct (no_secrets_configured cfg); [discriminate|].
     destruct (verify_pre cfg r) as [[[[sg tt] nn] ts]|]; [|discriminate].
-    destruct (fst (admit nn (ts * sec) (h_tol cfg) now2 (a_cache a2))); [|discriminate].
-    destruct (fst (admit nn (ts * sec) (h_tol cfg) now1 (a_cache a))); [|discriminate].
+    destruct (fst (cache_admit nn (ts * sec) (h_tol cfg) now2 (a_cache a2))); [|discriminate].
+    destruct (fst (cache_admit nn (ts * sec) (h_tol cfg) now1 (a_cache a))); [|discriminate].
     inversion A1; inversion A2; subst. auto. }
   destruct Same as [-> ->].
   revert A2. apply (replay_never_twice s now1 r n t h now2 r A1); [exact M|].
